@@ -5,11 +5,14 @@
     ISA specification gives, and its divisions never trap; for each of the 44 conditional jumps the value tested by brif is
     non-zero iff the ISA condition holds; each of the 22 memory opcodes makes the ISA's access; the byte swaps at each width
     and the wide load define the ISA's value; the helper call has the ISA's shape (theories/ClMiscProofs.v).
-    Not modelled: the block structure (which block brif targets), what the called helper does, Cranelift's code generation.  Those are exercised by checks/C04.py against
+    The block structure: on an accepted program each jump's target pc is the ISA's (an instruction start), `brif` goes to the
+    block of that pc when the condition holds and to the block of the next pc otherwise, `ja` to the target block
+    (theories/ClCfgProofs.v).  Not modelled: how the blocks are laid out and sealed (Cranelift's FunctionBuilder), what the
+    called helper does, Cranelift's code generation.  Those are exercised by checks/C04.py against
     the interpreter (= the ISA by theorem C01); the refusal of local calls is checked there too. *)
-From Coq Require Import ZArith List.
-From RbpfV Require Import MachInt Ebpf ClirSem Isa ClAluProofs ClJmpProofs ClMemProofs ClMiscProofs.
-From RbpfV.gen Require Import ClAlu ClJmp ClMem ClMisc.
+From Coq Require Import ZArith List String.
+From RbpfV Require Import MachInt Ebpf ClirSem Isa ClAluProofs ClJmpProofs ClMemProofs ClMiscProofs WellFormed Verifier ClCfgProofs.
+From RbpfV.gen Require Import Opcodes ClAlu ClJmp ClMem ClMisc ClCfg.
 Import ListNotations.
 Open Scope Z_scope.
 
@@ -52,6 +55,20 @@ Theorem C04_helper_call_shape : forall i, - 2 ^ 31 <= imm i < 2 ^ 31 ->
   gen_cl_call_refuses_local = true /\ gen_cl_call_key i = u32 (imm i) /\ gen_cl_call_args = [1; 2; 3; 4; 5] /\ gen_cl_call_result = 0.
 Proof. exact cl_call_shape. Qed.
 
+(** control flow: for every jump of an accepted program the pc whose block is the "taken" successor is k + 1 + offset -- the
+    ISA's target, an instruction start -- and the other successor is the block of k + 1; the conversion to u32 never panics *)
+Theorem C04_jump_blocks : forall p, bytes_ok p -> acc p -> forall k,
+  In k (starts p) -> is_jump (opc (insn_at p k)) = true ->
+  gen_cl_target_pc k (insn_at p k) = Ok (k + 1 + off (insn_at p k)) /\ In (k + 1 + off (insn_at p k)) (starts p) /\
+  gen_cl_next_pc k = Ok (k + 1).
+Proof. exact cl_jump_targets. Qed.
+
+(** the pair stored for a jump is (block of the next pc, block of the target pc); `brif` takes the second when the condition
+    is true and the first otherwise; conditional-jump arms cover exactly the conditional jumps *)
+Theorem C04_brif_successors :
+  gen_cl_targets_pair = ("next_pc", "target_pc")%string /\ gen_cl_brif_taken_is_second = true /\ gen_cl_brif_else_is_first = true.
+Proof. exact brif_blocks. Qed.
+
 (** non-vacuity: 50 opcodes; a division by a zero register gives 0, a 32-bit modulo by zero keeps all 64 bits *)
 Example C04_example :
   List.length cl_alu_ops = 50%nat /\ List.length cl_jmp_ops = 44%nat /\ List.length cl_mem_ops = 22%nat /\
@@ -69,3 +86,5 @@ Print Assumptions C04_memory_accesses.
 Print Assumptions C04_byte_swaps.
 Print Assumptions C04_wide_load.
 Print Assumptions C04_helper_call_shape.
+Print Assumptions C04_jump_blocks.
+Print Assumptions C04_brif_successors.
